@@ -110,11 +110,26 @@ func encodeJustify(buf *bytes.Buffer, block *pb.InternalBlock) error {
 // VerifyMerkle
 func VerifyMerkle(block *pb.InternalBlock) error {
 	blockid := block.Blockid
+	// the padded tree of [a,b,c] is also the tree of [a,b,c,c]: only together with the (hashed) tx count
+	// does the root determine the body
+	if int(block.TxCount) != len(block.Transactions) {
+		return fmt.Errorf("tx count is wrong, block id:%s, tx count:%d, transactions:%d", utils.F(blockid), block.TxCount, len(block.Transactions))
+	}
 	merkleTree := MakeMerkleTree(block.Transactions)
 	if len(merkleTree) > 0 {
 		merkleRoot := merkleTree[len(merkleTree)-1]
 		if !(bytes.Equal(merkleRoot, block.MerkleRoot)) {
 			return errors.New("merkle root is wrong, block id:" + utils.F(blockid) + ",block merkle root:" + utils.F(block.MerkleRoot) + ", make merkle root:" + utils.F(merkleRoot))
+		}
+		// the merkle tree array is neither hashed nor signed, but the body of a stored block is rebuilt
+		// from it (queryBlock: MerkleTree[:TxCount]): it has to be the tree of the body
+		if len(block.MerkleTree) != len(merkleTree) {
+			return fmt.Errorf("merkle tree is wrong, block id:%s, nodes:%d, expected:%d", utils.F(blockid), len(block.MerkleTree), len(merkleTree))
+		}
+		for i := range merkleTree {
+			if !bytes.Equal(merkleTree[i], block.MerkleTree[i]) {
+				return fmt.Errorf("merkle tree is wrong, block id:%s, node:%d", utils.F(blockid), i)
+			}
 		}
 		return nil
 	} else {
